@@ -138,6 +138,19 @@ Section DEEP.
   Definition child_path (parent : list string) (key : string) : list string :=
     if String.eqb key "" then parent else parent ++ [key].
 
+  (* the loops of the object case: results that are nil are skipped, an error ends the loop *)
+  Definition obj_loop {A} (f : string -> A -> bres) : list (string * A) -> list (string * pval) -> option (list (string * pval)) :=
+    fix go (l : list (string * A)) (acc : list (string * pval)) : option (list (string * pval)) :=
+      match l with
+      | [] => Some acc
+      | (k, a) :: r =>
+          match f k a with
+          | BErr => None
+          | BOk PNil => go r acc
+          | BOk v => go r (upd k v acc)
+          end
+      end.
+
   (* buildResObj params parentKeys key schema *)
   Fixpoint build (params : list (string * ptree)) (s : dsch) (parent : list string) (key : string) {struct s} : bres :=
     let mk := child_path parent key in
@@ -161,33 +174,13 @@ Section DEEP.
         | None => BOk PNil
         | Some (PLeaf raw) => BOk (PS raw)            (* not the expected type: returned as it is *)
         | Some (PNode objp) =>
-            let fix declared (l : list (string * dsch)) (acc : list (string * pval)) : option (list (string * pval)) :=
-                match l with
-                | [] => Some acc
-                | (k, ps) :: r =>
-                    match build params ps mk k with
-                    | BErr => None
-                    | BOk PNil => declared r acc
-                    | BOk v => declared r (upd k v acc)
-                    end
-                end in
-            match declared props [] with
+            match obj_loop (fun k ps => build params ps mk k) props [] with
             | None => BErr
             | Some m =>
                 match ap with
                 | None => BOk (PO m)
                 | Some aps =>
-                    let fix addl (l : list (string * ptree)) (acc : list (string * pval)) : option (list (string * pval)) :=
-                        match l with
-                        | [] => Some acc
-                        | (k, _) :: r =>
-                            match build params aps mk k with
-                            | BErr => None
-                            | BOk PNil => addl r acc
-                            | BOk v => addl r (upd k v acc)
-                            end
-                        end in
-                    match addl objp m with
+                    match obj_loop (fun k (_ : ptree) => build params aps mk k) objp m with
                     | Some m' => BOk (PO m')
                     | None => BErr
                     end
